@@ -52,6 +52,7 @@ from distance import hamming
 from lib.eccman import ECCMan, compute_ecc_params
 from lib.hasher import Hasher
 from reedsolo import ReedSolomonError
+from unireedsolomon import RSCodecError
 
 
 
@@ -258,9 +259,13 @@ Note: An ecc structure repair does NOT allow to recover from more errors on your
                     if not ecc_manager_idx.check(marker_str, ecc):
                         # Trying to fix the marker's infos using the ecc
                         idx_corrupted += 1
-                        marker_repaired, repaired_ecc = ecc_manager_idx.decode(marker_str, ecc)
+                        try:
+                            marker_repaired, repaired_ecc = ecc_manager_idx.decode(marker_str, ecc)
+                        except (ReedSolomonError, RSCodecError) as exc: # the ecc lib may raise an exception when it can't decode. We ensure that we can still continue to process the other index blocks.
+                            marker_repaired = None
+                            repaired_ecc = None
                         # Repaired the marker's infos, all is good!
-                        if ecc_manager_idx.check(marker_repaired, repaired_ecc):
+                        if marker_repaired is not None and ecc_manager_idx.check(marker_repaired, repaired_ecc):
                             marker_str = marker_repaired
                             idx_corrected += 1
                         # Else it's corrupted beyond repair, just skip
